@@ -10,6 +10,7 @@ parsing, recovery), SignatureHash / RawSignatureHash, VerifyScript, SignMessage 
 Stub: the nonce source (planned k handed to ECDSA_sign_ex as (k^-1, r)).  libsecp256k1 signing path:
 not installed on this image, not run.
 """
+import os
 import base64
 import copy
 import hashlib
@@ -138,6 +139,11 @@ class Sign(Engine):
             r = rng.random()
             if rng.random() < 0.15:
                 S({'op': 'select', 'chain': rng.choice(RC.CHAINS)})
+            if prop in ('C13', 'C14') and rng.random() < 0.12:
+                flagnames = ['P2SH', 'STRICTENC', 'DERSIG', 'LOW_S', 'NULLDUMMY', 'SIGPUSHONLY', 'MINIMALDATA', 'DISCOURAGE_UPGRADABLE_NOPS', 'CLEANSTACK', 'CHECKLOCKTIMEVERIFY']
+                S({'op': 'script_noise', 'secret': '%064x' % self.gen_secret(rng), 'comp': rng.random() < 0.6, 'nonce': '%064x' % rng.randrange(1, N),
+                   'evals': [[rng.choice(['checksig', 'checksigverify', 'multisig', 'multisig2']), rng.choice(['empty', 'empty', 'valid', 'high-s', 'junk', 'no-hashtype', 'one-byte']),
+                              [f for f in flagnames if rng.random() < 0.35]] for _ in range(rng.randint(1, 5))]})
             if prop == 'C13':
                 if r < 0.45:
                     S({'op': 'sign', 'key': rng.randrange(16), 'digest': self.gen_digest(rng), 'nonce': '%064x' % self.gen_nonce(rng)})
@@ -234,6 +240,44 @@ class Sign(Engine):
 
     def _key(self, idx):
         return self.keys[idx % len(self.keys)] if self.keys else None
+
+    def _op_script_noise(self, a):
+        """Between the key operations the application evaluates scripts of its own - signature checks that fail
+        in every way they can, under any set of verification flags.  What they return or raise is not judged
+        here; the key operations that follow are, as always."""
+        C, S, SE, K = self.C, self.S, self.SE, self.K
+        from ref import sighash as RS
+        d = int(a['secret'], 16)
+        pub = EC.point_encode(EC.mul(d, EC.G), a['comp'])
+        tx = C.CMutableTransaction([C.CMutableTxIn(C.COutPoint(b'\x07' * 32, 0))], [C.CMutableTxOut(1, S.CScript([S.OP_1]))])
+        spk = S.CScript([pub, S.OP_CHECKSIG])
+        spec = {'version': tx.nVersion, 'vin': [{'hash': '07' * 32, 'n': 0, 'script': '', 'seq': 0xffffffff}], 'vout': [{'value': 1, 'script': '51'}], 'locktime': 0, 'wit': None}
+        z = int.from_bytes(RS.legacy_sighash(bytes(spk), spec, 0, 1), 'big')
+        r, s_, _ = EC.sign_with_k(d, z, int(a['nonce'], 16) % (EC.N - 1) + 1)
+        lo = EC.low_s(r, s_)[:2] if r and s_ else (1, 1)
+        sigs = {'empty': b'', 'valid': EC.der_encode(*lo) + b'\x01', 'high-s': EC.der_encode(lo[0], EC.N - lo[1]) + b'\x01',
+                'junk': b'\x30\x00junk\x01', 'no-hashtype': EC.der_encode(*lo), 'one-byte': b'\x01'}
+        for kind, sig, flagnames in a['evals']:
+            flags = {SE.SCRIPT_VERIFY_FLAGS_BY_NAME[f] for f in flagnames if f in SE.SCRIPT_VERIFY_FLAGS_BY_NAME}
+            sg = sigs[sig]
+            if kind == 'checksig':
+                script = S.CScript([sg, pub, S.OP_CHECKSIG])
+            elif kind == 'checksigverify':
+                script = S.CScript([sg, pub, S.OP_CHECKSIGVERIFY, S.OP_1])
+            elif kind == 'multisig':
+                script = S.CScript([S.OP_0, sg, S.OP_1, pub, S.OP_1, S.OP_CHECKMULTISIG])
+            else:
+                script = S.CScript([S.OP_0, sg, sg, S.OP_2, pub, pub, S.OP_2, S.OP_CHECKMULTISIG])
+            try:
+                SE.EvalScript([], script, tx, 0, flags=flags)
+            except Exception:            # noqa: BLE001 - not judged
+                pass
+            try:
+                SE.VerifyScript(S.CScript([sg]), spk, tx, 0, flags=flags)
+            except Exception:            # noqa: BLE001
+                pass
+        self.ctx.fault('scripts-evaluated-between-key-operations', len(a['evals']))
+        self.ctx.log(0, 0, 'script_noise', '', len(a['evals']))
 
     def _op_select(self, a):
         seams.select(a['chain'])
@@ -612,6 +656,63 @@ class Sign(Engine):
         ctx.log(0, 0, 'pub', '', '%s/%r' % (how, want))
 
     # ---- C14
+    # message lengths where a hexadecimal constant gains a digit (a bound typed with one f too few): 16^k - 1 and 16^k
+    HEX_MSG_SIZES = [16 ** k + d for k in (3, 4, 5, 6, 7) for d in (-1, 0)]
+
+    def systematic(self, prop, tier):
+        if prop != 'C14':
+            return []
+        plans = []
+        for j, n in enumerate(self.HEX_MSG_SIZES):
+            if n > 16 ** 6 and (os.environ.get('VERIF_PYMODE') or n != 16 ** 7):
+                continue            # the 256 MiB message (about a gigabyte of working memory) is tried once, in the main pass
+            steps = [{'op': 'key', 'secret': '%064x' % (0x1234567 + j), 'compressed': bool(j % 2)},
+                     {'op': 'bigmsg', 'n': n, 'salt': j, 'nonce': '%064x' % (0x777 + j)}]
+            plans.append({'engine': self.name, 'property': [prop], 'config': {'chain': RC.CHAINS[j % len(RC.CHAINS)], 'systematic': 'message-length-at-hex-digit-boundary'},
+                          'steps': [{'t': 0.0, 'prio': 0, 'party': 0, 'op': s_['op'], 'args': s_} for s_ in steps]})
+        return plans
+
+    def _op_bigmsg(self, a):
+        """A very long message, described by its recipe: digest against the definition (hashed in pieces), a
+        reference-made signature must verify for the signer's address, the library's own must recover the key."""
+        import hashlib
+        ctx, SM, W, K = self.ctx, self.SM, self.W, self.K
+        k = self._key(0)
+        n = a['n']
+        head = '%d|' % a['salt']
+        text = head + 'm' * (n - len(head))
+        try:
+            msg = SM.BitcoinMessage(text)
+            digest = msg.GetHash()
+        except Exception as e:
+            ctx.check(False, 'C14.digest', 'BitcoinMessage of a %d-byte message raised %s' % (n, type(e).__name__), mlen=n)
+            return
+        h = hashlib.sha256()
+        h.update(RW.varbytes(b'Bitcoin Signed Message:\n'))
+        h.update(RW.compact(n))
+        h.update(text.encode('ascii'))
+        want = hashlib.sha256(h.digest()).digest()
+        ctx.carry()
+        ctx.check(digest == want, 'C14.digest', 'message digest is not dSHA256(varstr(magic) || varstr(utf-8 message)) for a %d-byte message' % n, mlen=n)
+        nonce = int(a['nonce'], 16)
+        r, s, rec, high = self._expect_sig(k, want, nonce)
+        sig64 = base64.b64encode(bytes([27 + rec + (4 if k['comp'] else 0)]) + r.to_bytes(32, 'big') + s.to_bytes(32, 'big'))
+        addr = W.P2PKHBitcoinAddress.from_pubkey(K.CPubKey(k['pub']))
+        try:
+            ok = SM.VerifyMessage(addr, msg, sig64)
+        except Exception as e:
+            ok = 'raised %s' % type(e).__name__
+        ctx.check(ok is True, 'C14.verify-self', 'VerifyMessage of a conforming signature over a %d-byte message returned %r for the signer address' % (n, ok), mlen=n)
+        self.nonces.queue = [nonce]
+        try:
+            raw = base64.b64decode(SM.SignMessage(k['sec'], msg))
+            good = len(raw) == 65 and EC.recover(int.from_bytes(want, 'big'), int.from_bytes(raw[1:33], 'big'), int.from_bytes(raw[33:], 'big'), (raw[0] - 27) & 3) == k['Q']
+        except Exception as e:
+            good = 'raised %s' % type(e).__name__
+        ctx.check(good is True, 'C14.recover', 'the signature SignMessage makes for a %d-byte message does not recover to the signer key over the defined digest (%r)' % (n, good), mlen=n)
+        ctx.fault('message-length-at-hex-digit-boundary')
+        ctx.log(0, 0, 'bigmsg', n, 'ok')
+
     def _op_msg(self, a):
         ctx, SM, W, K = self.ctx, self.SM, self.W, self.K
         k = self._key(a['key'])
